@@ -1,6 +1,8 @@
 package props
 
 import (
+	"encoding/hex"
+	"crypto/sha256"
 	"io"
 	"math"
 	"bytes"
@@ -33,6 +35,11 @@ type cacheEv struct {
 	simrt.EvSpec
 	D2    string `json:"d2,omitempty"` // value of a second d tag appended after all other tags
 	HasD2 bool   `json:"has_d2,omitempty"`
+	// SelfRef > 0 (deletion requests): the request names itself in an e tag at
+	// that position (1-based) among its tags. An id that appears in the hashed
+	// tags cannot be the hash: such an event has a made-up id (stores do not
+	// verify ids; the relay in front of them does).
+	SelfRef int `json:"self_ref,omitempty"`
 	Refs []cacheRef `json:"refs,omitempty"` // for kind 5 (and as ordinary e/a tags on other kinds)
 }
 
@@ -51,6 +58,7 @@ type CacheCase struct {
 	AvoidEphemeral bool `json:"avoid_ephemeral,omitempty"`
 	AvoidNoD       bool `json:"avoid_no_d,omitempty"`
 	AvoidIDRefAddr bool `json:"avoid_idref_addr,omitempty"`
+	SelfRefs       bool `json:"self_refs,omitempty"` // deletion requests may name themselves (in-memory store engines only)
 }
 
 type cacheEngine struct{}
@@ -116,6 +124,17 @@ func (c *CacheCase) build() []*mocrelay.Event {
 			tags = append(tags, []string{"d", sp.D2})
 		}
 		s := sp.EvSpec
+		if sp.SelfRef > 0 {
+			h := sha256.Sum256([]byte(fmt.Sprintf("verif-selfref-%d-%s", i, sp.Content)))
+			own := hex.EncodeToString(h[:])
+			pos := min(sp.SelfRef-1, len(tags))
+			tags = append(tags[:pos:pos], append([][]string{{"e", own}}, tags[pos:]...)...)
+			s.Tags = tags
+			ev := *s.Event()
+			ev.ID = own
+			evs[i] = &ev
+			return evs[i]
+		}
 		s.Tags = tags
 		evs[i] = s.Event()
 		return evs[i]
@@ -285,6 +304,9 @@ func genCacheEvents(t *rapid.T, c *CacheCase, nev int) {
 				}
 			}
 		}
+		if e.Kind == 5 && c.SelfRefs && rapid.IntRange(0, 4).Draw(t, "selfref") == 0 {
+			e.SelfRef = 1 + rapid.IntRange(0, 3).Draw(t, "selfpos")
+		}
 		for j := 0; j < nrefs; j++ {
 			r := cacheRef{Tag: rapid.SampledFrom([]string{"e", "e", "a"}).Draw(t, "reftag")}
 			r.Extra = rapid.IntRange(0, 4).Draw(t, "extra") == 0
@@ -326,6 +348,7 @@ func (cacheEngine) Gen(t *rapid.T, tier string) any {
 	c.Cap = rapid.SampledFrom([]int{1, 2, 3, 3, 4, 5, 8, 16}).Draw(t, "cap")
 	avoid := rapid.IntRange(0, 9).Draw(t, "avoid") < 1
 	c.AvoidEphemeral, c.AvoidNoD, c.AvoidIDRefAddr = avoid, avoid, avoid
+	c.SelfRefs = rapid.IntRange(0, 2).Draw(t, "selfrefs") == 0
 	nev := rapid.IntRange(2, maxEv).Draw(t, "nev")
 	genCacheEvents(t, c, nev)
 	evs := c.build()
